@@ -1,4 +1,4 @@
-SPECIFICATION Spec
+SPECIFICATION GenSpec
 CONSTANTS
   UserSeq <- Users3
   NA = 2
@@ -10,6 +10,7 @@ CONSTANTS
   KeepHist = TRUE
   GenDepth = 14
   GenDir = "gen"
+  KindBag <- BagDefault
   Tmax = 9
   Jump = 2
   MaxAuc = 2
